@@ -10,6 +10,9 @@ TInit == HInit /\ l = 1
 TNext == \/ (Is("Reset") /\ rng' = [u \in Units |-> None] /\ held' = <<>>)
          \/ (Is("Stack") /\ Stack(Ev.u, Ev.req, Ev.size, Ev.rep, Ev.rlo, Ev.rhi, Ev.sp16, Ev.inr, Ev.userlo))
          \/ (Is("StackEnd") /\ StackEnd(Ev.u, Ev.touched, Ev.guard, Ev.done))
+         \/ (Is("Desc") /\ Desc(Ev.u, Ev.rlo, Ev.rhi, Ev.al))
+         \/ (Is("DescEnd") /\ DescEnd(Ev.u, Ev.ran))
+         \/ (Is("Churn") /\ Churn(Ev.dup))
          \/ (Is("Ledger") /\ Ledger(Ev.live, Ev.errors))
          \/ (Is("PAlloc") /\ PAlloc(Ev.t, Ev.h, Ev.al))
          \/ (Is("PFree") /\ PFree(Ev.t, Ev.h, Ev.intact))
